@@ -197,13 +197,13 @@ def _build(repo, outdir):
             units['C'].append((src, o))
             o2 = os.path.join(scratch, 'C11_%d.bc' % k)
             jobs.append([CLANG, '-DNSYNC_ATOMIC_C11', '-I' + os.path.join(repo, 'platform/c11')] + fl +
-                        ['-O1', '-g', '-emit-llvm', '-c', src, '-o', o2, '-w'])
+                        ['-O0', '-Xclang', '-disable-O0-optnone', '-g', '-emit-llvm', '-c', src, '-o', o2, '-w'])
             units['C11'].append((src, o2))
         for k, e in enumerate(ent_x):
             fl = _flags_from(e)
             src = src_of(e)
             o = os.path.join(scratch, 'CXX_%d.bc' % k)
-            jobs.append([CLANG, '-x', 'c++'] + fl + ['-O1', '-g', '-emit-llvm', '-c', src, '-o', o, '-w'])
+            jobs.append([CLANG, '-x', 'c++'] + fl + ['-O0', '-Xclang', '-disable-O0-optnone', '-g', '-emit-llvm', '-c', src, '-o', o, '-w'])
             units['CXX'].append((src, o))
         # probe TU (constants as the preprocessor sees them, C configuration)
         probe = os.path.join(scratch, 'probe.c')
@@ -224,7 +224,7 @@ def _build(repo, outdir):
             _run([IRFACTS, bc, out])
             return out
         work = []
-        for cfg, passes in (('C', 'sroa'), ('CXX', None), ('C11', None)):
+        for cfg, passes in (('C', 'sroa'), ('CXX', 'sroa'), ('C11', 'sroa')):
             for k, (_, o) in enumerate(units[cfg]):
                 work.append((cfg, k, o, passes))
         with ThreadPoolExecutor(max_workers=16) as ex:
